@@ -43,6 +43,15 @@
 //!       whose last instruction is an unconditional jump with displacement to the next address are exempt (there the
 //!       wrapped value is computed by the decoder).
 //!
+//! STRUCTURED FAMILIES (added after two independently seeded changes slipped through the random / exhaustive-short ones):
+//! `windows` / `windows64_4` / `windows_short` - fixed-width ISAs: buffers of exactly 64, 60, 56 bytes of nops whose last three (quick)
+//! / four (thorough; quick: the 64-byte window at 0x1000) words run over ALL tuples of a 20 / 14 / 16-word alphabet of control
+//! transfers and ordinary words (`window_alphabet`), at 0x1000 and 0x40_0000; all pairs / words as 8- / 4-byte buffers.
+//! `grid` - x86 / amd64: prefix sequences of length 0..2 over 66 67 f2 f3 2e 36 3e 26 64 65 f0 (quick: none, the 11 single ones,
+//! the 20 pairs containing 67; thorough: all 133) x [amd64: REX none / 48 / 40 / 4c / 41 - rotating in the quick tier, crossed in the
+//! thorough one] x every one-byte and every 0f xx opcode x 9 ModRM forms (mod=00 rm=000; SIB 25 disp32 / 24 / 0c; rm=101 disp32 or
+//! RIP-relative; rm=110 = disp16 under 67; mod=01 disp8; mod=10 disp32; mod=11; displacement bytes 34 12 00 00) x all 8 reg fields,
+//! followed by the immediate pattern 78 56 34 12.
 //! FAMILIES (quick tier; `VERIF_TIER=thorough` widens the starred ones): every 1- and 2-byte string, raw (truncated) and
 //! padded to 16 bytes with 0x00 / 0xff; for the five fixed-width configurations every 32-bit word `top half x low half`
 //! with all 2^16 top halves and 4* (16) representative low halves; 30 000* (200 000) fixed-seed random 16-byte strings per
@@ -542,6 +551,54 @@ fn corpus(isa: Isa) -> Vec<Vec<u8>> {
     }
 }
 
+/// small alphabets of control-transfer and ordinary words (most significant byte first) for the WINDOW families
+fn window_alphabet(isa: Isa) -> Vec<u32> {
+    match isa {
+        // nop, addiu, lw, beq $a0,$a1,+3, bne, b +2, j 0x1010, jal 0x1010, jr $ra, jalr $t0, bal, bltzal, bgezal, blez, bgtz, bltz, bgez,
+        // beql (branch likely), add.s (no semantics), syscall
+        Isa::MipsBe | Isa::MipsLe => vec![0x00000000, 0x25080001, 0x8d280004, 0x10850003, 0x14850003, 0x10000002, 0x08000404, 0x0c000404, 0x03e00008, 0x0100f809,
+            0x04110002, 0x04900002, 0x04910002, 0x18800002, 0x1c800002, 0x04800002, 0x04810002, 0x50850002, 0x46000000, 0x0000000c],
+        // nop, addi, lwz, b +8, bl +8, beq +8, bne -8, bdnz +8, bdnzl +8, blr, bctr, bctrl, mullw (no semantics), sc
+        Isa::Ppc => vec![0x60000000, 0x38630001, 0x80640004, 0x48000008, 0x48000009, 0x41820008, 0x4082fff8, 0x42000008, 0x42000009, 0x4e800020, 0x4e800420, 0x4e800421, 0x7c6321d6, 0x44000002],
+        // nop, add, ldr, b +8, bl +8, br x16, blr x16, ret, b.eq +8, cbz +8, cbnz -8, tbz +8, ldr literal, fadd (no semantics), undefined, svc
+        Isa::A64 => vec![0xd503201f, 0x8b020020, 0xf9400020, 0x14000002, 0x94000002, 0xd61f0200, 0xd63f0200, 0xd65f03c0, 0x54000040, 0xb4000040, 0xb5ffffc0, 0x36000040, 0x58000040, 0x1e222820, 0x00000000, 0xd4000001],
+        _ => vec![],
+    }
+}
+/// buffer of `len` bytes: nops, then the `k` words selected by the digits of `t` (base = alphabet size) as its LAST words
+fn window(isa: Isa, alpha: &[u32], len: usize, k: usize, mut t: usize) -> Vec<u8> {
+    let words = len / 4;
+    let k = k.min(words);
+    let mut ws = vec![alpha[0]; words];
+    for j in 0..k { ws[words - 1 - j] = alpha[t % alpha.len()]; t /= alpha.len(); }
+    ws.iter().flat_map(|w| word_bytes(isa, *w)).collect()
+}
+
+/// x86 / amd64 GRID: ModRM forms (every addressing form of both address sizes) with non-zero displacement bytes
+const GRID_FORMS: [&[u8]; 9] = [&[0x00], &[0x04, 0x25, 0x34, 0x12, 0x00, 0x00], &[0x04, 0x24], &[0x04, 0x0c], &[0x05, 0x34, 0x12, 0x00, 0x00], &[0x06, 0x34, 0x12],
+    &[0x40, 0x34], &[0x80, 0x34, 0x12, 0x00, 0x00], &[0xc0]];
+const GRID_PREFIXES: [u8; 11] = [0x66, 0x67, 0xf2, 0xf3, 0x2e, 0x36, 0x3e, 0x26, 0x64, 0x65, 0xf0];
+const GRID_REX: [u8; 4] = [0x48, 0x40, 0x4c, 0x41];
+/// prefix sequences of length 0..2: all 133 (thorough) or the empty one, the 11 single ones and every pair containing 67 (quick)
+fn grid_prefix_seqs(all: bool) -> Vec<Vec<u8>> {
+    let mut v: Vec<Vec<u8>> = vec![vec![]];
+    for a in GRID_PREFIXES { v.push(vec![a]); }
+    for a in GRID_PREFIXES { for b in GRID_PREFIXES { if all || ((a == 0x67) != (b == 0x67)) { v.push(vec![a, b]); } } }
+    v
+}
+/// prefixes [REX] opcode (one byte, or 0f xx) ModRM(form, reg) SIB / displacement, immediate pattern 78 56 34 12
+fn grid_bytes(pre: &[u8], rex: Option<u8>, op: usize, form: usize, reg: usize) -> Vec<u8> {
+    let mut v = pre.to_vec();
+    if let Some(r) = rex { v.push(r); }
+    if op >= 256 { v.push(0x0f); }
+    v.push(op as u8);
+    let f = GRID_FORMS[form];
+    v.push(f[0] | (reg as u8) << 3);
+    v.extend_from_slice(&f[1..]);
+    v.extend_from_slice(&[0x78, 0x56, 0x34, 0x12]);
+    v
+}
+
 const LOW_HALVES: [u16; 16] = [0x0000, 0xffff, 0x0821, 0x8000, 0x0001, 0x7fff, 0x5555, 0xaaaa, 0x1234, 0x00ff, 0xff00, 0x03e0, 0xfc1f, 0x0400, 0x2108, 0x8421];
 const ADDRS: [u64; 4] = [0x1000, 0, 0xffff_fff0, 0xffff_ffff_ffff_fff0];
 
@@ -619,7 +676,7 @@ fn families(trs: &[Tr], thorough: bool, seed: u64) -> Vec<Family> {
         // mandatory prefixes; raw and zero-padded
         if !fixed {
             const THIRD: [u8; 11] = [0x00, 0x04, 0x05, 0x24, 0x25, 0x40, 0x64, 0x80, 0xc0, 0xe4, 0xff];
-            let heads: Vec<Vec<u8>> = if thorough { vec![vec![], vec![0x0f], vec![0x66], vec![0x66, 0x0f], vec![0xf2, 0x0f], vec![0xf3, 0x0f], vec![0x67], vec![0x0f, 0x38], vec![0x0f, 0x3a], vec![0x66, 0x0f, 0x38], vec![0x66, 0x0f, 0x3a]] } else { vec![vec![], vec![0x0f], vec![0x66, 0x0f]] };
+            let heads: Vec<Vec<u8>> = if thorough { vec![vec![], vec![0x0f], vec![0x66], vec![0x66, 0x0f], vec![0xf2, 0x0f], vec![0xf3, 0x0f], vec![0x67], vec![0x0f, 0x38], vec![0x0f, 0x3a], vec![0x66, 0x0f, 0x38], vec![0x66, 0x0f, 0x3a]] } else { vec![vec![]] }; // (0f xx and prefixed opcodes: the `grid` family)
             let nh = heads.len();
             let rex = isa == Isa::Amd64;
             fs.push(Family { name: "bytes3", tr: ti, len: 65536 * 11 * nh, gen: Box::new(move |i| {
@@ -634,6 +691,45 @@ fn families(trs: &[Tr], thorough: bool, seed: u64) -> Vec<Family> {
                     (vec![(i >> 16) as u8, (i >> 8) as u8, i as u8], 0x1000)
                 }) });
             }
+        }
+        // fixed-width ISAs, FULL WINDOWS: buffers of exactly 64 / 60 / 56 bytes (the recovery code hands over 64) of nops whose last
+        // three (thorough: four) words run over all tuples of the alphabet, at two addresses (targets of j / jal inside and outside
+        // the window); all 4-tuples of the 64-byte window at 0x1000 also in the quick tier; all pairs as 8-byte and all words as 4-byte buffers
+        if fixed {
+            let alpha = Arc::new(window_alphabet(isa));
+            let n = alpha.len();
+            let k = if thorough { 4 } else { 3 };
+            let nt = n.pow(k as u32);
+            let al = alpha.clone();
+            fs.push(Family { name: "windows", tr: ti, len: nt * 3 * 2, gen: Box::new(move |i| {
+                let (t, l, a) = (i % nt, (i / nt) % 3, i / (nt * 3));
+                (window(isa, &al, [64, 60, 56][l], k, t), [0x1000u64, 0x40_0000][a])
+            }) });
+            if !thorough {
+                let al = alpha.clone();
+                let n4 = n.pow(4);
+                fs.push(Family { name: "windows64_4", tr: ti, len: n4, gen: Box::new(move |i| (window(isa, &al, 64, 4, i), 0x1000)) });
+            }
+            let al = alpha.clone();
+            fs.push(Family { name: "windows_short", tr: ti, len: (n * n + n) * 2, gen: Box::new(move |i| {
+                let (t, a) = (i % (n * n + n), i / (n * n + n));
+                (if t < n * n { window(isa, &al, 8, 2, t) } else { window(isa, &al, 4, 1, t - n * n) }, [0x1000u64, 0x40_0000][a])
+            }) });
+        }
+        // x86 / amd64 GRID: prefix sequence x [REX] x every one-byte and every 0f xx opcode x ModRM form x reg field
+        if !fixed {
+            let seqs = Arc::new(grid_prefix_seqs(thorough));
+            let amd = isa == Isa::Amd64;
+            let nrex = if amd && thorough { 5 } else { 1 };
+            let per = 512 * 9 * 8;
+            let sq = seqs.clone();
+            fs.push(Family { name: "grid", tr: ti, len: seqs.len() * nrex * per, gen: Box::new(move |i| {
+                let (j, r, q) = (i % per, (i / per) % nrex, i / (per * nrex));
+                let (op, form, reg) = (j / 72, (j / 8) % 9, j % 8);
+                // quick tier on amd64: the REX byte rotates with the job instead of multiplying the grid
+                let rex = if !amd { None } else if nrex == 5 { if r == 0 { None } else { Some(GRID_REX[r - 1]) } } else { let x = (op + form + reg + q) % 5; if x == 0 { None } else { Some(GRID_REX[x - 1]) } };
+                (grid_bytes(&sq[q], rex, op, form, reg), 0x1000)
+            }) });
         }
         // random 16-byte strings
         let nrand = if thorough { 200_000 } else { 30_000 };
